@@ -30,7 +30,7 @@ def run(ctx):
         obj = json.load(open(ctx.replay))
         return progcheck.replay_file(ctx, ctx.replay, project=project_for(obj["scenario"]["kind"]))
     thorough = ctx.tier == "thorough"
-    for dev in ("RangeToNodeStart", "TrailAfterDecl", "OnceConsumesSlot", "FileDocOnly", "LastMarkerOnly", "FuncLineCoversBody"):
+    for dev in ("RangeToNodeStart", "TrailAfterDecl", "OnceConsumesSlot", "FileDocOnly", "LastMarkerOnly", "FuncLineCoversBody", "OnlyFuncDeclBodies", "LineDirAdjusted"):
         r = ctx.tlc("Scope", cfg("quick", emit=False, dev='{"%s"}' % dev, live=False), label="c07_dev_" + dev, allow_violation=True, count=False)
         if r["violated"] != "Exact":
             raise vlib.ToolError("deviation %s does not violate Exact: vacuous" % dev)
@@ -50,7 +50,7 @@ def run(ctx):
         items = []
         for i, sc in enumerate(group):
             prog, exp, _pos = gen_scope.build_scope(sc, "C07_%s_%d" % (kind, i))
-            meta = {k: sc[k] for k in ("kind", "slot", "slot2", "list", "cls")}
+            meta = {k: sc[k] for k in ("kind", "slot", "slot2", "list", "ld", "cls")}
             meta["removed"] = sorted(set(sc["base"]) - set(sc["expect"]))
             meta["moved_in"] = sorted(set(sc["expect"]) - set(sc["base"]))
             items.append((prog, exp, meta))
